@@ -44,3 +44,33 @@ Definition documented_privacy (is_exact matches_name : text -> bool) (rules : li
     | None => default
     end
   end.
+
+(* ---- total version: patterns may be meaningless ------------------------------------------------
+   A pattern holding a range whose end is below its start has no meaning (Spec.Glob.wf_pattern = false).
+   pydoctor looks at the rules newest first; the first rule that DECIDES is the newest one that is either
+   meaningless (the run aborts there: re.error) or matches the name.  Exact rules are looked at before. *)
+Inductive verdict : Type :=
+| Level (p : priv)
+| Aborts.
+
+(* the LAST rule (command-line order) whose pattern satisfies `test`, as a rule *)
+Fixpoint last_entry (test : text -> bool) (rules : list rule) : option rule :=
+  match rules with
+  | [] => None
+  | (p, m) :: r =>
+    match last_entry test r with
+    | Some q => Some q
+    | None => if test m then Some (p, m) else None
+    end
+  end.
+
+Definition documented_verdict (is_exact meaningful matches_name : text -> bool) (rules : list rule) (default : priv)
+  : verdict :=
+  match last_rule is_exact rules with
+  | Some p => Level p
+  | None =>
+    match last_entry (fun m => negb (meaningful m) || matches_name m) rules with
+    | Some (p, m) => if meaningful m then Level p else Aborts
+    | None => Level default
+    end
+  end.
